@@ -2122,7 +2122,8 @@ void QXmppIceComponent::handleDatagram(const QByteArray &buffer, const QHostAddr
     quint32 messageCookie;
     QByteArray messageId;
     quint16 messageType = QXmppStunMessage::peekType(buffer, messageCookie, messageId);
-    if (!messageType || messageCookie != STUN_MAGIC) {
+    // RFC 5389 section 6: the two most significant bits of a STUN message type are zero
+    if (!messageType || (messageType & 0xC000) || messageCookie != STUN_MAGIC) {
         // use this as an opportunity to flag a potential pair
         for (auto *pair : std::as_const(d->pairs)) {
             if (pair->remote.host() == remoteHost &&
